@@ -144,9 +144,9 @@ func (x Expr) GetNodes(n gen.Node) (results []gen.Node) {
 			if (int64(di) & descentFlag) == 0 {
 				switch tv := prev.(type) {
 				case gen.Object:
-					// Put prev back and slide fi.
-					stack[len(stack)-1] = prev
-					stack = append(stack, di|descentFlag)
+					// Put prev back with its own index, the one on the stack is
+					// still needed for the siblings of prev.
+					stack = append(stack, prev, di|descentFlag)
 					if fi == index(len(x))-1 { // last one
 						for _, v = range tv {
 							results = append(results, v)
@@ -160,9 +160,9 @@ func (x Expr) GetNodes(n gen.Node) (results []gen.Node) {
 						}
 					}
 				case gen.Array:
-					// Put prev back and slide fi.
-					stack[len(stack)-1] = prev
-					stack = append(stack, di|descentFlag)
+					// Put prev back with its own index, the one on the stack is
+					// still needed for the siblings of prev.
+					stack = append(stack, prev, di|descentFlag)
 					if fi == index(len(x))-1 { // last one
 						for _, v = range tv {
 							results = append(results, v)
@@ -446,9 +446,9 @@ func (x Expr) FirstNode(n gen.Node) (result gen.Node) {
 			if (int64(di) & descentFlag) == 0 {
 				switch tv := prev.(type) {
 				case gen.Object:
-					// Put prev back and slide fi.
-					stack[len(stack)-1] = prev
-					stack = append(stack, di|descentFlag)
+					// Put prev back with its own index, the one on the stack is
+					// still needed for the siblings of prev.
+					stack = append(stack, prev, di|descentFlag)
 					if fi == index(len(x))-1 { // last one
 						for _, v = range tv {
 							return v
@@ -462,9 +462,9 @@ func (x Expr) FirstNode(n gen.Node) (result gen.Node) {
 						}
 					}
 				case gen.Array:
-					// Put prev back and slide fi.
-					stack[len(stack)-1] = prev
-					stack = append(stack, di|descentFlag)
+					// Put prev back with its own index, the one on the stack is
+					// still needed for the siblings of prev.
+					stack = append(stack, prev, di|descentFlag)
 					if fi == index(len(x))-1 { // last one
 						if 0 < len(tv) {
 							return tv[0]
